@@ -460,7 +460,7 @@ Theorem atomic_rmw_atomic : forall a ty o e s e' s' ans,
 Proof.
   intros a ty o e s e' s' ans Hb. unfold atomic_block in Hb.
   destruct (me e) as [m|]; [|discriminate].
-  destruct (get_obj s a) as [[v c| | | | | | | | | ]|] eqn:Hg; try discriminate.
+  destruct (get_obj s a) as [[v c| | | | | | | | | | | | ]|] eqn:Hg; try discriminate.
   destruct (a_apply ty o v) as [[newv okflag] ret] eqn:Ha.
   destruct (if a_exhales o then exhale e m c else Some e) as [e1|]; [|discriminate].
   destruct (a_inhales ty o v).
